@@ -204,7 +204,8 @@ impl Iterator for HeaderIter {
 impl TryFrom<Vec<HeaderField>> for Header {
     type Error = HeaderError;
     fn try_from(headers: Vec<HeaderField>) -> Result<Self, Self::Error> {
-        let mut fields = HeaderMap::with_capacity(headers.len());
+        let mut fields = HeaderMap::try_with_capacity(headers.len())
+            .map_err(|_| HeaderError::TooManyFields)?;
         let mut pseudo = Pseudo::default();
 
         for field in headers.into_iter() {
@@ -231,7 +232,9 @@ impl TryFrom<Vec<HeaderField>> for Header {
                     pseudo.len += 1;
                 }
                 Field::Header((n, v)) => {
-                    fields.append(n, v);
+                    fields
+                        .try_append(n, v)
+                        .map_err(|_| HeaderError::TooManyFields)?;
                 }
                 Field::Protocol(p) => {
                     pseudo.protocol = Some(p);
@@ -446,6 +449,7 @@ pub enum HeaderError {
     MissingStatus,
     MissingAuthority,
     ContradictedAuthority,
+    TooManyFields,
 }
 
 impl HeaderError {
@@ -483,6 +487,7 @@ impl fmt::Display for HeaderError {
             HeaderError::ContradictedAuthority => {
                 write!(f, "uri and authority field are in contradiction")
             }
+            HeaderError::TooManyFields => write!(f, "too many header fields"),
         }
     }
 }
